@@ -215,8 +215,22 @@ def mutate(src, rnd):
     elif op == "trunc": toks = toks[:k]
     return " ".join(toks)
 
+SOUP = ["script", "S", "{", "}", "(", ")", "if", "flag", "var", "&&", "||", "!", "==", "1", "x", ":", "case", "switch", "while", "do",
+        "break", "continue", "poryswitch", '"t"', "moves", "format", ",", "text", "const", "=", "mapscripts", "[", "]", "elif", "else", "default", "value"]
+
 def gen_C18(rnd, n, tier):
     out = []
+    if tier == "thorough":
+        import itertools
+        base = base_cfg(switches={"V": "A"})
+        k = 0
+        for pre in ("", "script S { ", "script S { if ("):
+            for ln in (1, 2, 3) if pre else (1, 2):
+                for tup in itertools.product(SOUP, repeat=ln):
+                    if ln == 3 and (k % 4): k += 1; continue       # a quarter of the triples
+                    src = pre + " ".join(tup); k += 1
+                    out.append(Case(compile_line(base, src), src, base, {"mode": "normal"}, group=("x", k)))
+                    out.append(Case(compile_line(base.copy(lint=True), src), src, base.copy(lint=True), {"mode": "lint"}, group=("x", k)))
     for i in range(n):
         x = rnd.random()
         if x < 0.55:
@@ -328,6 +342,15 @@ def gen_C19(rnd, n, tier):
         for k in range(2 if tier == "quick" else 3):
             s, offs = render_lexemes(ls, rnd)
             out.append(Case(lex_line(s), s, None, {"ls": ls, "offs": offs}, group=i))
+    if tier == "thorough":
+        # small scope, exhaustively: every string of length <= 4 over a 14-character alphabet
+        # (correspondence only: lexer vs model on all of them)
+        import itertools
+        alpha = ["a", "0", " ", "\n", "#", "/", '"', "=", "&", "x", "-", "é", "`", "!"]
+        k = 0
+        for ln in range(1, 5):
+            for tup in itertools.product(alpha, repeat=ln):
+                src = "".join(tup); out.append(Case(lex_line(src), src, None, {"exh": True}, group=("exh", k))); k += 1
     # the recorded finding F16 stays in the stream: a NUL inside a comment
     ls = [("id", "lock"), ("id", "foo")]
     out.append(Case(lex_line("lock # c \x00 bar\nfoo"), "lock # c \x00 bar\nfoo", None, {"ls": ls, "offs": [0, 17]}, group="F16"))
@@ -343,6 +366,7 @@ def gen_C19(rnd, n, tier):
     return out
 
 def oracle_C19_group(cases, results):
+    if cases[0].meta.get("exh"): return None
     if cases[0].cfg is not None:
         if any(r != results[0] for r in results):
             # errors carry positions, which legitimately differ between layouts
